@@ -182,7 +182,7 @@ def run(oc, tier, seed, model_available, escalate):
                 bad = "an input file was modified"
         if bad:
             oc.violations.append({"input": {"params": P.describe(), "tree": {k: v.hex() for k, v in tree.items()}, "victim_index": vi,
-                                            "damage": kd, "order": order, "ecc": new.hex() if len(new) < 6000 else "<%d bytes>" % len(new)},
+                                            "damage": kd, "order": order, "ecc": new.hex()},
                                   "impl": {"exit": rc, "stats": st, "pristine_stats": st0}, "what": bad})
         # ---- correspondence: the scanner on the real damaged ecc file (general spec), field splitting of the victim
         if len(new) < 12000:
